@@ -62,6 +62,7 @@ package ship
 //@   requires [C04] E2-final: terminal(c.smeState) ==> terminal(newState)
 //@   requires [C01] G1-gate: postTrust(newState) && !postTrust(c.smeState) ==> newState == model.SmeHelloStateReadyInit && ($Trusted[c.remoteSKI] || $AutoAccept || c.role == ShipRoleClient)
 //@   ensures c.smeState == newState
+//@   ensures c.handshakeTimerRunning == runAfter(newState, old(c.handshakeTimerRunning))
 //@   modifies c.smeState, c.smeError, c.handshakeTimerRunning, c.handshakeTimerType, $Trusted[c.remoteSKI]
 
 //@ func (c *ShipConnection).setHandshakeTimer(timerType, duration)
@@ -72,169 +73,379 @@ package ship
 //@   modifies c.handshakeTimerRunning
 
 // ---- everything a handshake step may touch ----
-//@ modset hs(c) := c.smeState, c.smeError, c.handshakeTimerRunning, c.handshakeTimerType, c.lastReceivedWaitingValue, c.remoteShipID, c.dataReader, c.spineBuffer, c.shutdownOnce.$done, $Trusted[c.remoteSKI], c.$reports, c.$setup, c.$idReports, c.$closeCalled, c.$closeScheduled, c.$everApproved, c.dataWriter.$wsClosed, c.dataWriter.$writes
+//@ modset hs(c) := $decoded, c.smeState, c.smeError, c.handshakeTimerRunning, c.handshakeTimerType, c.lastReceivedWaitingValue, c.remoteShipID, c.dataReader, c.spineBuffer, c.shutdownOnce.$done, $Trusted[c.remoteSKI], c.$reports, c.$setup, $idReports[c.remoteSKI], $lastId[c.remoteSKI], c.$closeCalled, c.$closeScheduled, c.$everApproved, c.dataWriter.$wsClosed, c.dataWriter.$writes
+//@ modset er(c) := @cl(c), c.smeState, c.smeError, c.handshakeTimerType, $Trusted[c.remoteSKI]
 //@ modset cl(c) := c.handshakeTimerRunning, c.shutdownOnce.$done, c.$reports, c.$closeCalled, c.$closeScheduled, c.dataWriter.$wsClosed, c.dataWriter.$writes
 
 // object invariant: the state is one the role can reach from INIT_START along diagram edges
 //@ pred roleOK(r string, s int) := reach(r, model.CmiStateInitStart, s)
 //@ objinv (c *ShipConnection) [C04] I1-reachable: roleOK(c.role, c.smeState)
 
+// timers (C04-E4): no timer armed in a terminal state, nor after the connection was closed
+//@ pred tinv(s int, running bool, done bool) := (terminal(s) ==> !running) && (done ==> !running)
+//@ pred stops(s int) := s in {model.SmeHelloStateOk, model.SmeHelloStateAbort, model.SmeHelloStateAbortDone, model.SmeHelloStateRemoteAbortDone, model.SmeHelloStateRejected, model.SmeProtHStateClientOk}
+//@ pred arms(s int) := s in {model.SmeHelloStateReadyInit, model.SmeHelloStatePendingInit, model.SmeProtHStateClientListenChoice}
+//@ pred runAfter(s int, running bool) bool := ite(stops(s), false, ite(arms(s), true, running))
+//@ objinv (c *ShipConnection) [C04] I2-timer: tinv(c.smeState, c.handshakeTimerRunning, c.shutdownOnce.$done)
+// transport (C04-E6): error/rejected => close was called; abort-done => close called or scheduled
+//@ pred closeOK(s int, done bool, sched bool) := (s in {model.SmeStateError, model.SmeHelloStateRejected} ==> done) && (s in {model.SmeHelloStateAbortDone, model.SmeHelloStateRemoteAbortDone} ==> done || sched)
+//@ objinv (c *ShipConnection) [C04] I3-closed: closeOK(c.smeState, c.shutdownOnce.$done, c.$closeScheduled)
+// data reader only exists once the handshake completed (C01-G4)
+//@ objinv (c *ShipConnection) [C01] I6-reader: c.dataReader != nil ==> c.smeState == model.SmeStateComplete || c.smeState == model.SmeStateError
+
+// once CloseConnection ran, only the abort/closing states are still handled
+//@ pred closing(s int) := terminal(s) || s == model.SmeStateComplete
+//@ macro DMODE(c) := (c.shutdownOnce.$done ==> closing(c.smeState))
+//@ macro KEEPID(c) := c.$setup == old(c.$setup) && $idReports[c.remoteSKI] == old($idReports[c.remoteSKI]) && $lastId[c.remoteSKI] == old($lastId[c.remoteSKI]) && c.remoteShipID == old(c.remoteShipID)
+// ---- shorthand ----
+//@ macro TINV(c) := tinv(c.smeState, c.handshakeTimerRunning, c.shutdownOnce.$done)
+//@ macro CLOSEOK(c) := closeOK(c.smeState, c.shutdownOnce.$done, c.$closeScheduled)
+//@ macro READER(c) := (c.dataReader != nil ==> c.smeState == model.SmeStateComplete || c.smeState == model.SmeStateError)
+//@ macro QUIET(c) := c.shutdownOnce.$done == old(c.shutdownOnce.$done) && c.handshakeTimerRunning == old(c.handshakeTimerRunning) && c.$closeScheduled == old(c.$closeScheduled)
+
 // ---- sending ----
-//@ func (c *ShipConnection).shipMessage(typ, model)
+// C04-E5: after a terminal outcome nothing but the abort notice and the closing exchange is sent
+//@ func (c *ShipConnection).shipMessage(typ, payload)
 //@   ensures c.smeState == old(c.smeState)
+//@   ensures result.1 == nil ==> @QUIET(c)
+//@   ensures c.shutdownOnce.$done != old(c.shutdownOnce.$done) ==> c.shutdownOnce.$done && !c.handshakeTimerRunning
+//@   ensures c.shutdownOnce.$done == old(c.shutdownOnce.$done) ==> c.handshakeTimerRunning == old(c.handshakeTimerRunning)
+//@   ensures c.$closeScheduled == old(c.$closeScheduled)
 //@   modifies @cl(c)
-//@ func (c *ShipConnection).sendShipModel(typ, model)
+//@ func (c *ShipConnection).sendShipModel(typ, payload) [C04]
+//@   requires [C04] E5-quiet: !terminal(c.smeState) || c.smeState == model.SmeHelloStateAbort || typ == model.MsgTypeEnd
 //@   ensures c.smeState == old(c.smeState)
+//@   ensures result == nil ==> @QUIET(c)
+//@   ensures c.shutdownOnce.$done != old(c.shutdownOnce.$done) ==> c.shutdownOnce.$done && !c.handshakeTimerRunning
+//@   ensures c.shutdownOnce.$done == old(c.shutdownOnce.$done) ==> c.handshakeTimerRunning == old(c.handshakeTimerRunning)
+//@   ensures c.$closeScheduled == old(c.$closeScheduled)
 //@   modifies @cl(c)
-//@ func (c *ShipConnection).handshakeHelloSend(phase, waitingDuration, prolongation)
+//@ func (c *ShipConnection).handshakeHelloSend(phase, waitingDuration, prolongation) [C04]
+//@   requires [C04] E5-quiet: !terminal(c.smeState) || c.smeState == model.SmeHelloStateAbort
 //@   ensures c.smeState == old(c.smeState)
+//@   ensures result == nil ==> @QUIET(c)
+//@   ensures c.shutdownOnce.$done != old(c.shutdownOnce.$done) ==> c.shutdownOnce.$done && !c.handshakeTimerRunning
+//@   ensures c.shutdownOnce.$done == old(c.shutdownOnce.$done) ==> c.handshakeTimerRunning == old(c.handshakeTimerRunning)
+//@   ensures c.$closeScheduled == old(c.$closeScheduled)
 //@   modifies @cl(c)
 
 // ---- closing ----
 //@ func (c *ShipConnection).CloseConnection(safe, code, reason) entry [C04,C11]
 //@   ensures c.smeState == old(c.smeState)
 //@   ensures c.shutdownOnce.$done
+//@   ensures !old(c.shutdownOnce.$done) ==> !c.handshakeTimerRunning
+//@   ensures old(c.shutdownOnce.$done) ==> c.handshakeTimerRunning == old(c.handshakeTimerRunning)
+//@   ensures old(c.$closeScheduled) ==> c.$closeScheduled
+//@   ensures !safe ==> c.$closeScheduled == old(c.$closeScheduled)
 //@   modifies @cl(c)
-//@ func (c *ShipConnection).endHandshakeWithError(err)
+//@ closure (c *ShipConnection).CloseConnection$1$1
+//@   spawns c.$closeScheduled
+//@   modifies c.$closeScheduled
+//@ func (c *ShipConnection).endHandshakeWithError(err) [C04]
 //@   requires err != nil
-//@   ensures c.smeState == model.SmeStateError
-//@   modifies @hs(c)
-//@ func (c *ShipConnection).abortProtocolHandshake(err)
-//@   ensures c.smeState == model.SmeStateError
-//@   modifies @hs(c)
+//@   requires @READER(c)
+//@   ensures c.smeState == model.SmeStateError && c.shutdownOnce.$done && !c.handshakeTimerRunning
+//@   ensures old(c.$closeScheduled) ==> c.$closeScheduled
+//@   ensures @READER(c)
+//@   modifies @er(c)
+//@ func (c *ShipConnection).abortProtocolHandshake(err) [C04]
+//@   requires !terminal(c.smeState)
+//@   requires @READER(c)
+//@   ensures c.smeState == model.SmeStateError && c.shutdownOnce.$done && !c.handshakeTimerRunning
+//@   ensures old(c.$closeScheduled) ==> c.$closeScheduled
+//@   ensures @READER(c)
+//@   modifies @er(c)
 
 // ---- dispatch ----
 //@ func (c *ShipConnection).handleState(timeout, message) [C04,C01]
 //@   requires roleOK(c.role, c.smeState)
+//@   requires @TINV(c) && @READER(c) && @DMODE(c)
+//@   requires @CLOSEOK(c) || c.smeState == model.SmeHelloStateAbortDone || c.smeState == model.SmeHelloStateRemoteAbortDone
 //@   ensures [C04] E3-step: stepOK(c.role, old(c.smeState), c.smeState)
+//@   ensures [C04] E4-timer: @TINV(c)
+//@   ensures [C04] E6-closed: @CLOSEOK(c)
+//@   ensures @DMODE(c)
+//@   ensures [C01] G4-reader: @READER(c)
 //@   modifies @hs(c)
+//@ closure (c *ShipConnection).handleState$1
+//@   spawns c.$closeScheduled
+//@   modifies c.$closeScheduled
 //@ func (c *ShipConnection).setAndHandleState(state) [C04,C01]
 //@   requires roleOK(c.role, c.smeState)
 //@   requires [C04] E1-edge: edge(c.role, c.smeState, state)
 //@   requires [C04] E2-final: terminal(c.smeState) ==> terminal(state)
 //@   requires [C01] G1-gate: postTrust(state) && !postTrust(c.smeState) ==> state == model.SmeHelloStateReadyInit && ($Trusted[c.remoteSKI] || $AutoAccept || c.role == ShipRoleClient)
+//@   requires state != model.SmeStateError && state != model.SmeHelloStateRejected && state != model.SmeStateComplete
+//@   requires tinv(state, runAfter(state, c.handshakeTimerRunning), c.shutdownOnce.$done) && @READER(c) && (c.shutdownOnce.$done ==> closing(state))
 //@   ensures [C04] E3-step: stepOK(c.role, state, c.smeState)
+//@   ensures [C04] E4-timer: @TINV(c)
+//@   ensures [C04] E6-closed: @CLOSEOK(c)
+//@   ensures @DMODE(c)
+//@   ensures [C01] G4-reader: @READER(c)
 //@   modifies @hs(c)
 //@ func (c *ShipConnection).handleShipMessage(timeout, message) [C04,C01]
 //@   requires roleOK(c.role, c.smeState)
+//@   requires @TINV(c) && @CLOSEOK(c) && @READER(c) && !c.shutdownOnce.$done
 //@   ensures [C04] E3-step: stepOK(c.role, old(c.smeState), c.smeState)
+//@   ensures [C04] E4-timer: @TINV(c)
+//@   ensures [C04] E6-closed: @CLOSEOK(c)
+//@   ensures [C01] G4-reader: @READER(c)
 //@   modifies @hs(c)
 
-// ---- init phase ----
+// ---- handlers (one per state) ----
 //@ func (c *ShipConnection).handshakeInit_cmiStateInitStart() [C04]
-//@   requires c.smeState == model.CmiStateInitStart
+//@   requires c.smeState == model.CmiStateInitStart && roleOK(c.role, c.smeState)
+//@   requires @TINV(c) && @CLOSEOK(c) && @READER(c) && !c.shutdownOnce.$done
 //@   ensures [C04] E3-step: stepOK(c.role, old(c.smeState), c.smeState)
+//@   ensures [C04] E4-timer: @TINV(c)
+//@   ensures [C04] E6-closed: @CLOSEOK(c)
+//@   ensures @DMODE(c)
+//@   ensures [C01] G4-reader: @READER(c)
 //@   modifies @hs(c)
 //@ func (c *ShipConnection).handshakeInit_cmiStateServerWait(message) [C04]
 //@   requires c.smeState == model.CmiStateServerWait && roleOK(c.role, c.smeState)
+//@   requires @TINV(c) && @CLOSEOK(c) && @READER(c) && !c.shutdownOnce.$done
 //@   ensures [C04] E3-step: stepOK(c.role, old(c.smeState), c.smeState)
+//@   ensures [C04] E4-timer: @TINV(c)
+//@   ensures [C04] E6-closed: @CLOSEOK(c)
+//@   ensures @DMODE(c)
+//@   ensures [C01] G4-reader: @READER(c)
 //@   modifies @hs(c)
 //@ func (c *ShipConnection).handshakeInit_cmiStateClientWait(message) [C04]
 //@   requires c.smeState == model.CmiStateClientWait && roleOK(c.role, c.smeState)
+//@   requires @TINV(c) && @CLOSEOK(c) && @READER(c) && !c.shutdownOnce.$done
 //@   ensures [C04] E3-step: stepOK(c.role, old(c.smeState), c.smeState)
+//@   ensures [C04] E4-timer: @TINV(c)
+//@   ensures [C04] E6-closed: @CLOSEOK(c)
+//@   ensures @DMODE(c)
+//@   ensures [C01] G4-reader: @READER(c)
 //@   modifies @hs(c)
-//@ func (c *ShipConnection).handshakeInit_cmiStateEvaluate(message) [C04]
-//@   requires c.smeState == model.CmiStateServerEvaluate || c.smeState == model.CmiStateClientEvaluate
-//@   ensures result ==> c.smeState == old(c.smeState)
-//@   ensures !result ==> c.smeState == model.SmeStateError
-//@   modifies @hs(c)
-
-// ---- hello phase ----
 //@ func (c *ShipConnection).handshakeHello_Init() [C04,C01]
 //@   requires c.smeState == model.SmeHelloStateReadyInit && roleOK(c.role, c.smeState)
+//@   requires @TINV(c) && @CLOSEOK(c) && @READER(c) && !c.shutdownOnce.$done
 //@   ensures [C04] E3-step: stepOK(c.role, old(c.smeState), c.smeState)
+//@   ensures [C04] E4-timer: @TINV(c)
+//@   ensures [C04] E6-closed: @CLOSEOK(c)
+//@   ensures @DMODE(c)
+//@   ensures [C01] G4-reader: @READER(c)
 //@   modifies @hs(c)
 //@ func (c *ShipConnection).handshakeHello_ReadyListen(timeout, message) [C04,C01]
 //@   requires c.smeState == model.SmeHelloStateReadyListen && roleOK(c.role, c.smeState)
+//@   requires @TINV(c) && @CLOSEOK(c) && @READER(c) && !c.shutdownOnce.$done
 //@   ensures [C04] E3-step: stepOK(c.role, old(c.smeState), c.smeState)
+//@   ensures [C04] E4-timer: @TINV(c)
+//@   ensures [C04] E6-closed: @CLOSEOK(c)
+//@   ensures @DMODE(c)
+//@   ensures [C01] G4-reader: @READER(c)
 //@   modifies @hs(c)
 //@ func (c *ShipConnection).handshakeHello_ReadyTimeout() [C04]
 //@   requires c.smeState == model.SmeHelloStateReadyListen && roleOK(c.role, c.smeState)
+//@   requires @TINV(c) && @CLOSEOK(c) && @READER(c) && !c.shutdownOnce.$done
 //@   ensures [C04] E3-step: stepOK(c.role, old(c.smeState), c.smeState)
+//@   ensures [C04] E4-timer: @TINV(c)
+//@   ensures [C04] E6-closed: @CLOSEOK(c)
+//@   ensures @DMODE(c)
+//@   ensures [C01] G4-reader: @READER(c)
 //@   modifies @hs(c)
 //@ func (c *ShipConnection).handshakeHello_Abort() [C04]
 //@   requires c.smeState == model.SmeHelloStateAbort && roleOK(c.role, c.smeState)
+//@   requires @TINV(c) && @CLOSEOK(c) && @READER(c)
 //@   ensures [C04] E3-step: stepOK(c.role, old(c.smeState), c.smeState)
+//@   ensures [C04] E4-timer: @TINV(c)
+//@   ensures [C04] E6-closed: @CLOSEOK(c)
+//@   ensures @DMODE(c)
+//@   ensures [C01] G4-reader: @READER(c)
 //@   modifies @hs(c)
 //@ func (c *ShipConnection).handshakeHello_PendingInit() [C04,C01]
 //@   requires c.smeState == model.SmeHelloStatePendingInit && roleOK(c.role, c.smeState)
+//@   requires @TINV(c) && @CLOSEOK(c) && @READER(c) && !c.shutdownOnce.$done
 //@   ensures [C04] E3-step: stepOK(c.role, old(c.smeState), c.smeState)
+//@   ensures [C04] E4-timer: @TINV(c)
+//@   ensures [C04] E6-closed: @CLOSEOK(c)
+//@   ensures @DMODE(c)
+//@   ensures [C01] G4-reader: @READER(c)
 //@   modifies @hs(c)
 //@ func (c *ShipConnection).handshakeHello_PendingListen(timeout, message) [C04,C01]
 //@   requires c.smeState == model.SmeHelloStatePendingListen && roleOK(c.role, c.smeState)
+//@   requires @TINV(c) && @CLOSEOK(c) && @READER(c) && !c.shutdownOnce.$done
 //@   ensures [C04] E3-step: stepOK(c.role, old(c.smeState), c.smeState)
+//@   ensures [C04] E4-timer: @TINV(c)
+//@   ensures [C04] E6-closed: @CLOSEOK(c)
+//@   ensures @DMODE(c)
+//@   ensures [C01] G4-reader: @READER(c)
 //@   modifies @hs(c)
 //@ func (c *ShipConnection).handshakeHello_PendingProlongationRequest() [C04]
 //@   requires c.smeState == model.SmeHelloStatePendingListen && roleOK(c.role, c.smeState)
+//@   requires @TINV(c) && @CLOSEOK(c) && @READER(c) && !c.shutdownOnce.$done
 //@   ensures [C04] E3-step: stepOK(c.role, old(c.smeState), c.smeState)
+//@   ensures [C04] E4-timer: @TINV(c)
+//@   ensures [C04] E6-closed: @CLOSEOK(c)
+//@   ensures @DMODE(c)
+//@   ensures [C01] G4-reader: @READER(c)
 //@   modifies @hs(c)
 //@ func (c *ShipConnection).handshakeHello_PendingTimeout() [C04]
 //@   requires c.smeState == model.SmeHelloStatePendingListen && roleOK(c.role, c.smeState)
+//@   requires @TINV(c) && @CLOSEOK(c) && @READER(c) && !c.shutdownOnce.$done
 //@   ensures [C04] E3-step: stepOK(c.role, old(c.smeState), c.smeState)
+//@   ensures [C04] E4-timer: @TINV(c)
+//@   ensures [C04] E6-closed: @CLOSEOK(c)
+//@   ensures @DMODE(c)
+//@   ensures [C01] G4-reader: @READER(c)
 //@   modifies @hs(c)
-
-// ---- protocol handshake phase ----
 //@ func (c *ShipConnection).handshakeProtocol_Init() [C04]
 //@   requires c.smeState == model.SmeHelloStateOk && roleOK(c.role, c.smeState)
+//@   requires @TINV(c) && @CLOSEOK(c) && @READER(c) && !c.shutdownOnce.$done
 //@   ensures [C04] E3-step: stepOK(c.role, old(c.smeState), c.smeState)
+//@   ensures [C04] E4-timer: @TINV(c)
+//@   ensures [C04] E6-closed: @CLOSEOK(c)
+//@   ensures @DMODE(c)
+//@   ensures [C01] G4-reader: @READER(c)
 //@   modifies @hs(c)
 //@ func (c *ShipConnection).handshakeProtocol_smeProtHStateServerListenProposal(message) [C04]
 //@   requires c.smeState == model.SmeProtHStateServerListenProposal && roleOK(c.role, c.smeState)
+//@   requires @TINV(c) && @CLOSEOK(c) && @READER(c) && !c.shutdownOnce.$done
 //@   ensures [C04] E3-step: stepOK(c.role, old(c.smeState), c.smeState)
+//@   ensures [C04] E4-timer: @TINV(c)
+//@   ensures [C04] E6-closed: @CLOSEOK(c)
+//@   ensures @DMODE(c)
+//@   ensures [C01] G4-reader: @READER(c)
 //@   modifies @hs(c)
 //@ func (c *ShipConnection).handshakeProtocol_smeProtHStateServerListenConfirm(message) [C04]
 //@   requires c.smeState == model.SmeProtHStateServerListenConfirm && roleOK(c.role, c.smeState)
+//@   requires @TINV(c) && @CLOSEOK(c) && @READER(c) && !c.shutdownOnce.$done
 //@   ensures [C04] E3-step: stepOK(c.role, old(c.smeState), c.smeState)
+//@   ensures [C04] E4-timer: @TINV(c)
+//@   ensures [C04] E6-closed: @CLOSEOK(c)
+//@   ensures @DMODE(c)
+//@   ensures [C01] G4-reader: @READER(c)
 //@   modifies @hs(c)
 //@ func (c *ShipConnection).handshakeProtocol_smeProtHStateClientInit() [C04]
 //@   requires c.smeState == model.SmeProtHStateClientInit && roleOK(c.role, c.smeState)
+//@   requires @TINV(c) && @CLOSEOK(c) && @READER(c) && !c.shutdownOnce.$done
 //@   ensures [C04] E3-step: stepOK(c.role, old(c.smeState), c.smeState)
+//@   ensures [C04] E4-timer: @TINV(c)
+//@   ensures [C04] E6-closed: @CLOSEOK(c)
+//@   ensures @DMODE(c)
+//@   ensures [C01] G4-reader: @READER(c)
 //@   modifies @hs(c)
 //@ func (c *ShipConnection).handshakeProtocol_smeProtHStateClientListenChoice(message) [C04]
 //@   requires c.smeState == model.SmeProtHStateClientListenChoice && roleOK(c.role, c.smeState)
+//@   requires @TINV(c) && @CLOSEOK(c) && @READER(c) && !c.shutdownOnce.$done
 //@   ensures [C04] E3-step: stepOK(c.role, old(c.smeState), c.smeState)
+//@   ensures [C04] E4-timer: @TINV(c)
+//@   ensures [C04] E6-closed: @CLOSEOK(c)
+//@   ensures @DMODE(c)
+//@   ensures [C01] G4-reader: @READER(c)
 //@   modifies @hs(c)
-
-// ---- pin and access methods ----
 //@ func (c *ShipConnection).handshakePin_Init() [C04]
 //@   requires c.smeState == model.SmePinStateCheckInit && roleOK(c.role, c.smeState)
+//@   requires @TINV(c) && @CLOSEOK(c) && @READER(c) && !c.shutdownOnce.$done
 //@   ensures [C04] E3-step: stepOK(c.role, old(c.smeState), c.smeState)
+//@   ensures [C04] E4-timer: @TINV(c)
+//@   ensures [C04] E6-closed: @CLOSEOK(c)
+//@   ensures @DMODE(c)
+//@   ensures [C01] G4-reader: @READER(c)
 //@   modifies @hs(c)
 //@ func (c *ShipConnection).handshakePin_smePinStateCheckListen(message) [C04]
 //@   requires c.smeState == model.SmePinStateCheckListen && roleOK(c.role, c.smeState)
+//@   requires @TINV(c) && @CLOSEOK(c) && @READER(c) && !c.shutdownOnce.$done
 //@   ensures [C04] E3-step: stepOK(c.role, old(c.smeState), c.smeState)
+//@   ensures [C04] E4-timer: @TINV(c)
+//@   ensures [C04] E6-closed: @CLOSEOK(c)
+//@   ensures @DMODE(c)
+//@   ensures [C01] G4-reader: @READER(c)
 //@   modifies @hs(c)
 //@ func (c *ShipConnection).handshakeAccessMethods_Init() [C04]
 //@   requires c.smeState == model.SmePinStateCheckOk && roleOK(c.role, c.smeState)
+//@   requires @TINV(c) && @CLOSEOK(c) && @READER(c) && !c.shutdownOnce.$done
 //@   ensures [C04] E3-step: stepOK(c.role, old(c.smeState), c.smeState)
+//@   ensures [C04] E4-timer: @TINV(c)
+//@   ensures [C04] E6-closed: @CLOSEOK(c)
+//@   ensures @DMODE(c)
+//@   ensures [C01] G4-reader: @READER(c)
 //@   modifies @hs(c)
-//@ func (c *ShipConnection).handshakeAccessMethods_Request(message) [C04,C09]
+//@ func (c *ShipConnection).handshakeInit_cmiStateEvaluate(message) [C04]
+//@   requires c.smeState == model.CmiStateServerEvaluate || c.smeState == model.CmiStateClientEvaluate
+//@   requires @TINV(c) && @CLOSEOK(c) && @READER(c) && !c.shutdownOnce.$done
+//@   ensures result ==> c.smeState == old(c.smeState) && @QUIET(c)
+//@   ensures !result ==> c.smeState == model.SmeStateError
+//@   ensures @KEEPID(c)
+//@   ensures [C04] E4-timer: @TINV(c)
+//@   ensures [C04] E6-closed: @CLOSEOK(c)
+//@   ensures @READER(c)
+//@   modifies @hs(c)
+
+// ---- access methods: SHIP ID pinning (C09) and approval (C01) ----
+//@ macro IDP() := cast($decoded, model.AccessMethods).AccessMethods.Id
+//@ macro DONE(c) := (c.smeState == model.SmeStateApproved || c.smeState == model.SmeStateComplete)
+//@ func (c *ShipConnection).handshakeAccessMethods_Request(message) [C04,C09,C01]
 //@   requires c.smeState == model.SmeAccessMethodsRequest && roleOK(c.role, c.smeState)
+//@   requires @TINV(c) && @CLOSEOK(c) && @READER(c) && !c.shutdownOnce.$done
 //@   ensures [C04] E3-step: stepOK(c.role, old(c.smeState), c.smeState)
+//@   ensures [C04] E4-timer: @TINV(c)
+//@   ensures [C04] E6-closed: @CLOSEOK(c)
+//@   ensures @DMODE(c)
+//@   ensures [C01] G4-reader: @READER(c)
+//@   ensures [C09] P1-pin: @DONE(c) && old(c.remoteShipID) != "" ==> @IDP() != nil && deref(@IDP()) == old(c.remoteShipID)
+//@   ensures [C09] P2-report: @DONE(c) && old(c.remoteShipID) == "" ==> $idReports[c.remoteSKI] == old($idReports[c.remoteSKI]) + 1 && @IDP() != nil && $lastId[c.remoteSKI] == deref(@IDP()) && c.remoteShipID == deref(@IDP())
+//@   ensures [C09] P2-once: !(@DONE(c) && old(c.remoteShipID) == "") ==> $idReports[c.remoteSKI] == old($idReports[c.remoteSKI])
+//@   ensures [C09] P4-setup: c.$setup == old(c.$setup) + ite(c.smeState == model.SmeStateComplete, 1, 0)
+//@   ensures [C09] P5-mismatch: c.smeState == model.SmeStateApproved ==> false
+//@   atcall ReportServiceShipID [C09] P3-order: c.$setup == old(c.$setup)
 //@   modifies @hs(c)
+//@ iface api.ShipConnectionInfoProviderInterface.SetupRemoteDevice(ski, writeI)
+//@   requires [C01] G3-setup: cast(writeI, ShipConnection).smeState == model.SmeStateApproved && ski == cast(writeI, ShipConnection).remoteSKI
+//@   ensures result != nil
+//@   ensures writeI.$setup == old(writeI.$setup) + 1
+//@   modifies writeI.$setup
 //@ func (c *ShipConnection).approveHandshake() [C04,C01]
 //@   requires c.smeState == model.SmeStateApproved && roleOK(c.role, c.smeState)
-//@   ensures c.smeState == model.SmeStateComplete
-//@   modifies @hs(c)
-//@ func (c *ShipConnection).processBufferedSpineMessages()
-//@   requires c.dataReader != nil
+//@   requires @TINV(c) && @CLOSEOK(c) && !c.shutdownOnce.$done
+//@   ensures c.smeState == model.SmeStateComplete && c.dataReader != nil
+//@   ensures c.$setup == old(c.$setup) + 1
+//@   ensures $idReports[c.remoteSKI] == old($idReports[c.remoteSKI]) && $lastId[c.remoteSKI] == old($lastId[c.remoteSKI]) && c.remoteShipID == old(c.remoteShipID)
+//@   ensures [C04] E4-timer: @TINV(c)
+//@   ensures [C04] E6-closed: @CLOSEOK(c)
+//@   ensures @DMODE(c)
+//@   modifies c.dataReader, c.$setup, c.spineBuffer, c.smeState, c.smeError, c.handshakeTimerRunning, c.handshakeTimerType, $Trusted[c.remoteSKI]
+//@ func (c *ShipConnection).processBufferedSpineMessages() [C01]
+//@   requires c.dataReader != nil && c.smeState == model.SmeStateComplete
+//@   atcall HandleShipPayloadMessage [C01] G4-deliver: c.smeState == model.SmeStateComplete
 //@   modifies c.spineBuffer
 
-// ---- entry points ----
+// ---- entry points (object invariants assumed at entry and proved at exit) ----
+// Assume/guarantee with the websocket layer (C13) and the timer (C14): no message and no timeout is
+// delivered to a connection after CloseConnection ran; with the hub registry (C11): a closed connection
+// has been removed from the registry, so approve/abort reach only connections that are not closed.
 //@ func (c *ShipConnection).Run() entry [C04]
+//@   requires !c.shutdownOnce.$done
 //@   modifies @hs(c)
 //@ func (c *ShipConnection).ApprovePendingHandshake() entry [C04,C01]
 //@   requires [C01] G0-approved: $Trusted[c.remoteSKI]
+//@   requires !c.shutdownOnce.$done
 //@   ensures [C04] E3-step: stepOK(c.role, old(c.smeState), c.smeState)
 //@   modifies @hs(c)
 //@ func (c *ShipConnection).AbortPendingHandshake() entry [C04,C10]
+//@   requires !c.shutdownOnce.$done
 //@   ensures [C04] E3-step: stepOK(c.role, old(c.smeState), c.smeState)
+//@   ensures [C10] D3-abort: old(c.smeState) == model.SmeHelloStatePendingListen || old(c.smeState) == model.SmeHelloStateReadyListen ==> terminal(c.smeState)
 //@   modifies @hs(c)
 //@ func (c *ShipConnection).ReportConnectionError(err) entry [C04,C13]
 //@   ensures [C04] E3-step: stepOK(c.role, old(c.smeState), c.smeState)
+//@   ensures [C13] T5-closed: c.shutdownOnce.$done
 //@   modifies @hs(c)
 //@ func (c *ShipConnection).HandleIncomingWebsocketMessage(message) entry [C04,C01,C06]
+//@   requires !c.shutdownOnce.$done
 //@   ensures [C04] E3-step: stepOK(c.role, old(c.smeState), c.smeState)
+//@   atcall HandleShipPayloadMessage [C01] G4-deliver: c.smeState == model.SmeStateComplete || c.smeState == model.SmeStateError
 //@   modifies @hs(c)
-//@ func (c *ShipConnection).shipModelFromMessage(message) pure
+//@ closure (c *ShipConnection).setHandshakeTimer$1 [C04]
+//@   requires !c.shutdownOnce.$done && roleOK(c.role, c.smeState) && validRole(c.role) && c.infoProvider != nil && c.dataWriter != nil
+//@   requires @TINV(c) && @CLOSEOK(c) && @READER(c)
+//@   ensures [C04] E3-step: stepOK(c.role, old(c.smeState), c.smeState)
+//@   ensures [C04] E4-timer: @TINV(c)
+//@   ensures [C04] E6-closed: @CLOSEOK(c)
+//@   modifies @hs(c)
+//@ func (c *ShipConnection).shipModelFromMessage(message)
 //@   ensures result.1 == nil ==> result.0 != nil
+//@   modifies $decoded
